@@ -46,7 +46,7 @@ INVARIANT ApiRefines
 CHECK_DEADLOCK FALSE
 """
 
-BROKEN = ("strict", "nosizecheck", "nototal", "nocheckint")
+BROKEN = ("strict", "nosizecheck", "nototal", "nocheckint", "lenmaskbit")
 
 
 def cfg(td=(), tags=("s1",), en=(), k=(), fn=(), gv=(), prims=("int", "char"), feat=(), n=2, mut=1,
@@ -58,10 +58,10 @@ def cfg(td=(), tags=("s1",), en=(), k=(), fn=(), gv=(), prims=("int", "char"), f
 
 SCENARIOS = {
     "q_struct": dict(tags=("s1",), n=1),
-    "q_const": dict(tags=(), en=("e1",), k=("k1",), n=2),
+    "q_const": dict(tags=(), en=("e1",), k=("k1",), feat=("zero",), n=2),
     "q_bigk": dict(tags=(), en=("e1",), k=("k1",), feat=("bigconst",), n=1),
     "q_use": dict(tags=("s1",), fn=("f1",), gv=("g1",), prims=("int",), n=2),
-    "sanity": dict(tags=("s1",), en=("e1",), k=("k1",), prims=("int", "char"), n=1),
+    "sanity": dict(tags=("s1",), en=("e1",), k=("k1",), prims=("int", "char"), feat=("zero",), n=1),
     # thorough
     "struct2": dict(td=("t1",), tags=("s1", "s2"), feat=("union",), n=2),
     "mixed2": dict(td=("t1",), tags=("s1",), en=("e1",), k=("k1",), fn=("f1",), gv=("g1",), prims=("int",), n=2),
@@ -157,6 +157,19 @@ def observe_one(ffi, lib, decls, plan, sfx, seed, anon_offset=0):
     names = mg.names_of(decls)
     obs = mg.observe(ffi, lib, names)
     td = ma.track_td(decls)
+    # ---- integer constants and enumerators used as array lengths in run-time type strings
+    alen = {}
+    for c in names.k:
+        def q(c=c):
+            ct = ffi.typeof("char[%s]" % c)
+            n = ct.length
+            if ffi.sizeof("char[%s]" % c) != n:
+                return "inconsistent: sizeof %d, typeof %d" % (ffi.sizeof("char[%s]" % c), n)
+            if n <= 4096 and len(ffi.new("char[%s]" % c)) != n:
+                return "inconsistent: new"
+            return str(n)
+        alen[c] = mg.guarded(q, "str")
+    obs["alen"] = alen
     # ---- what gcc says
     gcc = {}
     fact = getattr(lib, "_vfact" + sfx)
@@ -274,17 +287,17 @@ def run_packs(ctx, behs, jobs, per):
     os.makedirs(work, exist_ok=True)
     items = [(i + 1, b) for i, b in enumerate(behs)]
     packs = [(items[i:i + per], work, "%d_%d" % (os.getpid(), i)) for i in range(0, len(items), per)]
-    if jobs <= 1:
-        res = [run_pack(p) for p in packs]
-    else:
-        with ProcessPoolExecutor(jobs) as ex:
-            res = list(ex.map(run_pack, packs))
+    def crashed(pk, exitcode):
+        return [{"id": idx, "beh": beh, "err": "crash: worker process died (exit code %s)" % exitcode,
+                 "obs": {}, "gcc": {}, "calls": {}, "rw": {}, "addr": {}} for idx, beh in pk[0]]
+    res = mg.run_parallel(run_pack, packs, jobs, crashed)
     return [r for rs in res for r in rs]
 
 
 # --------------------------------------------------------------------------- verdicts
 
-CLAUSE = {"su": "struct/union: usable although a checked fact disagrees, or not showing the compiler's layout",
+CLAUSE = {"len": "integer constant / enumerator used as an array length in a type string: no error although the cdef disagrees, or a wrong length",
+          "su": "struct/union: usable although a checked fact disagrees, or not showing the compiler's layout",
           "k": "integer constant: wrong value, or no error although the cdef disagrees with the C source",
           "en": "enumerator: wrong value, or no error although the cdef disagrees with the C source",
           "td": "typedef not exposed with its declared type", "fn": "function not exposed with its declared type",
